@@ -7,6 +7,8 @@ package main
 // of the exported graph. All judgement is in the graph; this file only searches it.
 
 import (
+	"strconv"
+	"strings"
 	"encoding/json"
 	"flag"
 	"fmt"
@@ -17,6 +19,7 @@ import (
 
 	jdoc "github.com/jsightapi/jsight-schema-go-library/formats/json"
 	"github.com/jsightapi/jsight-schema-go-library/notations/jschema"
+	"github.com/jsightapi/jsight-schema-go-library/notations/regex"
 	"github.com/jsightapi/jsight-schema-go-library/rules/enum"
 )
 
@@ -195,6 +198,18 @@ func publicEnumCalls(b []byte) []publicResult {
 	}
 }
 
+// publicRegexCalls: the text as a regex type through the public entry points.
+func publicRegexCalls(b []byte) []publicResult {
+	mk := func() *regex.Schema { return regex.New("@r", b) }
+	return []publicResult{
+		{"Check", guard(func() error { return mk().Check() })},
+		{"Len", guard(func() error { _, e := mk().Len(); return e })},
+		{"GetAST", guard(func() error { _, e := mk().GetAST(); return e })},
+		{"Example", guard(func() error { _, e := mk().Example(); return e })},
+		{"Pattern", guard(func() error { _, e := mk().Pattern(); return e })},
+	}
+}
+
 // checkSchemaLex runs the schema scanner alone (hook VerifScan) over b.
 func checkSchemaLex(b []byte) Outcome {
 	_, _, f := jschema.VerifScan(b, false)
@@ -249,6 +264,11 @@ func init() {
 				return
 			}
 			want := g.Verdict[t]
+			wantLen := -1
+			if strings.HasPrefix(want, "accept:") { // RegexRef: an accepting state carries the token length
+				wantLen, _ = strconv.Atoi(want[7:])
+				want = "accept"
+			}
 			if want == "unspec" && !*robust {
 				atomic.AddInt64(&unspec, 1)
 				return
@@ -263,6 +283,26 @@ func init() {
 					// equal items: refused by the rule, not by its syntax (EnumText leaves it aside)
 					atomic.AddInt64(&unspec, 1)
 					return
+				}
+			case "regex":
+				got = guard(func() error { return regex.New("@r", b).Check() })
+				if got.Code == 1502 && !*robust {
+					// the token is complete but its pattern is not a regular expression: not a matter of the token (RegexText)
+					atomic.AddInt64(&unspec, 1)
+					return
+				}
+				if !got.OK && wantLen >= 0 && !*robust && (got.Code == 1500 || got.Code == 1501) {
+					// a complete token refused as cut off: Len cannot be the length of the token
+					atomic.AddInt64(&mism, 1)
+					w.Write(c05Mismatch{Bytes: bytesToInts(b), Want: fmt.Sprintf("Len = %d", wantLen), WantPos: -1, Got: got, What: "len"})
+					return
+				}
+				if got.OK && wantLen >= 0 && !*robust {
+					if l, err := regex.New("@r", b).Len(); err != nil || int(l) != wantLen {
+						atomic.AddInt64(&mism, 1)
+						w.Write(c05Mismatch{Bytes: bytesToInts(b), Want: fmt.Sprintf("Len = %d", wantLen), WantPos: -1, Got: Outcome{OK: err == nil, Pos: int(l)}, What: "len"})
+						return
+					}
 				}
 			default:
 				got = checkDoc(b, *trailing)
@@ -280,7 +320,7 @@ func init() {
 				what = "panic"
 			} else if got.OK != (want == "accept") {
 				what = "verdict"
-				if *sut == "schema" || *sut == "enum" {
+				if *sut == "schema" || *sut == "enum" || *sut == "regex" {
 					// no listed property fixes the exact language of the schema / enum scanner: differences are reported, positions are judged
 					what = ""
 					n := atomic.AddInt64(&lenient, 0)
@@ -398,10 +438,13 @@ func init() {
 				}
 				atomic.AddInt64(&transitions, 1)
 				base := append(append([]byte{}, acc[s]...), byte(c))
-				if *robust && (*sut == "schema" || *sut == "enum") {
+				if *robust && (*sut == "schema" || *sut == "enum" || *sut == "regex") {
 					calls := publicSchemaCalls
 					if *sut == "enum" {
 						calls = publicEnumCalls
+					}
+					if *sut == "regex" {
+						calls = publicRegexCalls
 					}
 					for _, pr := range calls(base) {
 						if pr.Got.Kind == "panic" || pr.Got.Kind == "foreign" || (!pr.Got.OK && pr.Got.Kind == "liberr" && pr.Got.Pos > len(base)) {
